@@ -137,9 +137,12 @@ def findLevel (searched : List UInt8) : Nat → Nat → Nat
 
 /-- the level `i` chosen by `write_long_bracket`: the closer is searched in `searched` = the
 value followed by the first `]` of the closing delimiter (fix of F14), so a level whose closer
-would be completed by the delimiter itself is skipped as well. -/
+would be completed by the delimiter itself is skipped as well; the search starts at level 1
+when the value ends with `]` or contains `[[` (fix of F14b: stock Lua 5.1 refuses `[[` inside a
+level-0 long string). -/
 def longLevel (v : List UInt8) : Nat :=
-  findLevel (v ++ [93]) (v.length + 2) (if v.getLast? == some 93 then 1 else 0)
+  findLevel (v ++ [93]) (v.length + 2)
+    (if v.getLast? == some 93 || containsSub [91, 91] v then 1 else 0)
 
 /-- utils.rs `write_long_bracket`. -/
 def writeLongBracket (v : List UInt8) : Option (List UInt8) :=
@@ -191,14 +194,9 @@ def hasUnicodeEscape (v : List UInt8) : Bool :=
   | some cs => cs.any fun ch => !charIsAscii ch
   | none => false
 
-/-- the level-0 long bracket form is used and the content contains `[[` — stock Lua 5.1
-rejects that ("nesting of [[...]] is deprecated"). -/
-def nestedOpen51 (v : List UInt8) : Bool :=
-  usesLongBracket v && longLevel v == 0 && containsSub [91, 91] v
-
-/-- the literal written for `v` stays inside what Lua 5.1 reads back as `v` -/
+/-- the literal written for `v` stays inside what Lua 5.1 reads back as `v`: no `\u{…}` -/
 def lua51Safe (v : List UInt8) : Bool :=
-  !hasUnicodeEscape v && !nestedOpen51 v
+  !hasUnicodeEscape v
 
 /-! # numbers -/
 
